@@ -263,7 +263,6 @@ func trailerSizeUpperBound(r rpcPlan) int {
 // ---------------------------------------------------------------- executor
 
 const sigInvalidUTF8Details = "c10.invalid_utf8_message_drops_details"
-const sigCodeGE2p31 = "c10.code_ge_2p31_becomes_unknown"
 
 func respPayload(i int) []byte { return []byte(fmt.Sprintf("resp-%d", i)) }
 
@@ -517,10 +516,9 @@ func judge(p plan, idx int, r rpcPlan, msgs [][]byte, gotErr error) vk.Result {
 	}
 	v := bad("status changed in transit: %v", problems)
 	// known-finding signatures: precise predicates, everything else stays a plain violation.
+	// (codes >= 2^31 arriving as Unknown was fixed in /repo f2150f1: a recurrence is a plain violation.)
 	switch {
-	case r.Code >= 1<<31 && st.Code() == codes.Unknown && len(problems) == 1:
-		v.Sig = sigCodeGE2p31
-	case r.Code < 1<<31 && !validUTF8 && len(r.Details) > 0 && uint32(st.Code()) == r.Code &&
+	case !validUTF8 && len(r.Details) > 0 && uint32(st.Code()) == r.Code &&
 		st.Message() == wantMsg && len(gotDet) == 0 && len(problems) == 1:
 		v.Sig = sigInvalidUTF8Details
 	}
